@@ -21,7 +21,14 @@ EXCLUDED_ARG_CLASSES = [
     "integer before= outside 0 <= i < len(children)",
     "negative indexes",
     "same-parent move_to with an integer index",
-    "move_to(before=self)",
+    "restart (save/load, dict form) of a state holding two distinct identity-hashed objects "
+    "with equal stored value",
+    "key maps whose short keys collide with the field names a mapper writes "
+    "(FileSystemEntry n/s/m/d with the standard maps)",
+    "load() without a mapper when an entry is a dict (typed: other than {str, kind})",
+    "dict form (to_dict_list/from_dict) of typed trees",
+    "RANDOM_ORDER/UNORDERED iteration of a branch, visit() with methods other than "
+    "pre/post/level, skip signals in post-order, visit callbacks returning True",
     "falsy data / data_id in set_data",
     "unhashable data without explicit data_id",
     "deep copy of a branch into its own sub-branch",
